@@ -364,6 +364,32 @@ pub fn all(prop: &str, cancelable: bool) -> Vec<Template> {
             p.done()
         }));
     }
+    if want(&["C17"]) {
+        // a captured set is pushed to a span whose parents lie in two traces, from a thread whose
+        // queue is drained late in a cycle, while one of the two roots was created on a queue the
+        // same cycle has already drained (its StartCollect is not known yet): both copies must arrive
+        for (order, nm) in [(0usize, "push-to-two-traces-one-not-yet-started/known-first"), (1, "push-to-two-traces-one-not-yet-started/unknown-first")] {
+            v.push(tpl(nm, stepped(2, false), 60_000, move || {
+                let mut p = B::new(2, c);
+                let w = p.root(1);
+                p.finish(1, w);
+                let r1 = p.root(0);
+                let set = new_local_label();
+                p.op(1, Op::LcStart { set });
+                let _l = p.lenter(1);
+                p.ladd_event(1);
+                p.pop(1);
+                p.pop(1);
+                let r2 = p.root(0);
+                let m = if order == 0 { p.child_multi(0, &[r1, r2]) } else { p.child_multi(0, &[r2, r1]) };
+                p.op(1, Op::PushSet { set, parents: vec![m] });
+                p.finish(0, m);
+                p.finish(0, r2);
+                p.finish(0, r1);
+                p.done()
+            }));
+        }
+    }
     if want(&["C13"]) {
         // fut.in_span(root): what the final poll records must reach the trace, wherever a cycle falls
         for (nm, pending_first) in [("in_span(root)-ready-at-once", false), ("in_span(root)-pending-then-ready", true)] {
